@@ -259,6 +259,7 @@ func (e *bufferExporter) EnqueueExport(records []Record) bool {
 // Export synchronously exports records in the context of ctx. This will not
 // return until the export has been completed.
 func (e *bufferExporter) Export(ctx context.Context, records []Record) error {
+	verifPoint("blrp.bufferExporter.Export.enter")
 	if len(records) == 0 {
 		return nil
 	}
